@@ -206,7 +206,33 @@ fn run_case(case: &Case, ev: &Evidence) -> CaseResult {
                 // the author: directly, by echo, or (detached) with its secrets -- and a twin taking another route
                 let how = op[3] % 3;
                 let twin_before = w.parties[author].g().clone();
-                {
+                // now and then the first attempt meets a storage that fails once: the pending commit must still be there for
+                // the second attempt (it is only spent once it has been applied)
+                if win.secrets.is_none() && op[4] % 4 == 0 {
+                    let bytes = win.bytes.clone();
+                    let party = &mut w.parties[author];
+                    party.ctl.arm(0, -1);
+                    let r = if how == 0 {
+                        guard(|| party.gm().apply_pending_commit().map(|_| ()))
+                    } else {
+                        guard(|| party.gm().process_incoming_message_with_time(MlsMessage::from_bytes(&bytes)?, t).map(|_| ()))
+                    };
+                    let fired = party.ctl.fired.load(std::sync::atomic::Ordering::SeqCst);
+                    party.ctl.reset();
+                    match r {
+                        Err(e) if e.is_panic() => return Err(panic_failure(P, "apply_own_commit(storage fault)", &e)),
+                        Err(_) if fired > 0 => {
+                            if !w.parties[author].g().has_pending_commit() {
+                                return Err(fail("pending_commit_lost_by_failed_apply", format!("party {author}: the storage failed once while its own commit was applied (route {how}); the pending commit is gone")));
+                            }
+                            ev.class("own_commit_applied_after_a_failed_first_attempt");
+                        }
+                        Err(e) => return Err(fail(&format!("author_cannot_apply_own_commit|{}", e.class()), format!("party {author} how {how}: {}", e.text()))),
+                        Ok(()) if fired > 0 => return Err(fail("storage_error_swallowed_by_apply", format!("party {author} route {how}"))),
+                        Ok(()) => {}
+                    }
+                }
+                if w.parties[author].g().current_epoch() == win.epoch {
                     let bytes = win.bytes.clone();
                     let party = &mut w.parties[author];
                     let r = match (&win.secrets, how) {
@@ -360,13 +386,19 @@ fn run_case(case: &Case, ev: &Evidence) -> CaseResult {
                     continue;
                 }
                 let cp = CustomProposal::new(ProposalType::new(CUSTOM_PROPOSAL), vec![op[2] as u8; 4]);
+                // every other time an Update: its author keeps the new leaf key until somebody else's commit covers it,
+                // whatever the author builds, clears or loses in between
+                let update = op[3] % 2 == 0;
                 let party = &mut w.parties[a];
-                match guard(|| party.gm().propose_custom(cp, vec![])) {
+                match guard(|| if update { party.gm().propose_update(vec![]) } else { party.gm().propose_custom(cp, vec![]) }) {
                     Ok(m) => {
                         w.push_proposal(a, m, vec![]).map_err(|e| setup_failure(P, "encode", &e))?;
                         w.flush(op[4])?;
+                        if update {
+                            ev.class("update_proposals_sent");
+                        }
                     }
-                    Err(e) if e.is_panic() => return Err(panic_failure(P, "propose_custom", &e)),
+                    Err(e) if e.is_panic() => return Err(panic_failure(P, "propose", &e)),
                     Err(e) => return Err(fail(&format!("valid_proposal_refused|{}", e.class()), e.text().into())),
                 }
             }
@@ -390,6 +422,7 @@ pub fn run(ctx: &Ctx) -> ! {
          Ok / error class of every call. Checked: building a commit changes only pending_commit (+ the consumed handshake key when handshake messages are encrypted), the epoch stays, \
          traffic stays readable; a second commit => ExistingPendingCommit and no change; clear restores the ability to commit; apply vs echo give canonically equal states; \
          receivers agree N-way and cross-decrypt; a loser's pending commit is discarded; old commits are rejected without change; stale detached commits are rejected. \
+         Racing members also send Update proposals (the author's pending leaf key may only go when a commit covering it is accepted), and the first attempt to apply one's own commit sometimes meets a storage that fails once (the pending commit must survive). \
          Non-trivial = sequence with a race (>= 2 members building commits in one epoch) or a stale-detached attempt; distinct by case value.",
     );
     ev.assume("membership is fixed after set-up in this check; membership-changing commits are covered by C01/C07");
